@@ -20,7 +20,8 @@ PROP = "C12"
 LEVEL = "exploration"
 RULE = ("every Term subclass/variant of the zoo and every leaf class (from the live modules) x defining positions (select list, "
         "RETURNING, DISTINCT ON, FROM, JOIN) and x every operand slot of every zoo entry (in select-list and WHERE context) x "
-        "GROUP BY / ORDER BY by alias or by expression x six dialect classes; enumerated completely, seeded random compositions on "
+        "GROUP BY / ORDER BY by alias or by expression (alias defined by the select list / not at all / only by a discarded sibling "
+        "branch, another statement, or a select list since replaced by *) x six dialect classes; enumerated completely, seeded random compositions on "
         "top. non-trivial = all (an alias is always involved); distinct = (class, position, slot, dialect)")
 ASSUMPTIONS = ["token-level comparison through the reference lexers",
                "SQLite prepare for the subset of classes whose SQL SQLite understands (fields, arithmetic, comparisons, CASE, functions it knows)"]
